@@ -235,7 +235,7 @@ def build_message(rng, v, name, node, mode, max_rep, ec=None, toks=None):
     names = []
     for l in lines:
         if l.seg == 'MSH':
-            out.append(structref.msh_line(v, name, ec))
+            out.append(structref.msh_line(v, name, ec, vid=rng is not None and rng.random() < 0.3))
         else:
             t, rn = gen.segment_line(rng, v, l.seg, ec, toks=toks, max_fields=3)
             out.append(t)
